@@ -132,6 +132,8 @@ def tlc(
         "-metadir",
         str(meta),
         "-noGenerateSpecTE",
+        "-maxSetSize",
+        "20000000",
         "-config",
         str(cfg_path),
     ]
